@@ -86,7 +86,7 @@ theorem exitCtx_clock (rw : Res V × World V) (t s : Int) (u : Option Int) (rest
   unfold exitCtx Clock.exit
   rw [h]
   simp only
-  split <;> simp
+  split <;> simp_all
 
 /-! ### the clock stack is balanced -/
 
@@ -165,14 +165,24 @@ theorem GenOK_push (env : Env H V) (g : Gen V) (h : GenOK env g) : GenOK env g.p
   · exact h.1
   · exact h.2 c hc
 
+theorem produce_val_td (env : Env H V) (g : Gen V) (now : Int) (n : String) (s : Int)
+    (hk : g.kind = .td n s) : (g.produce env now).1 = env.tdVal n s now := by
+  unfold Gen.produce
+  simp [hk]
+
 theorem GenOK_produce (env : Env H V) (now : Int) (g : Gen V) (f : Bool) (h : GenOK env g) :
     GenOK env (produceValue env true now g f).2 := by
   unfold produceValue
   simp only [Bool.not_true, Bool.false_eq_true, if_false]
   split
-  · unfold GenOK CacheOK Gen.produce at *
-    cases hk : g.kind <;> simp only [hk] at h ⊢
-    exact ⟨Or.inl rfl, h.2⟩
+  · have pf := produce_frame env g now
+    unfold GenOK at *
+    simp only [pf.2.1, pf.1]
+    cases hk : g.kind with
+    | stream sid => trivial
+    | td n s =>
+      simp only [hk] at h ⊢
+      exact ⟨Or.inl (by simp [produce_val_td env g now n s hk]), h.2⟩
   · exact h
 
 theorem HeapOK_set (env : Env H V) (hp : List (Gen V)) (i : Nat) (g : Gen V)
@@ -230,13 +240,14 @@ theorem instantiate_ok (env : Env H V) : ∀ (ss : List Slot) (hp : List (Gen V)
     HeapOK env hp → HeapOK env (instantiate ss hp).2
   | [], _, h => h
   | s :: ss, hp, h => by
-    simp only [instantiate]
-    split
-    · split
-      · rename_i g x hx
-        exact instantiate_ok env ss _ (HeapOK_append env hp x h (HeapOK_get env hp g x h hx))
-      · exact instantiate_ok env ss hp h
-    · exact instantiate_ok env ss hp h
+    cases s with
+    | const v => simp only [instantiate]; exact instantiate_ok env ss hp h
+    | inherit => simp only [instantiate]; exact instantiate_ok env ss hp h
+    | gen g =>
+      simp only [instantiate]
+      cases hx : hp[g]? with
+      | none => exact instantiate_ok env ss hp h
+      | some x => exact instantiate_ok env ss _ (HeapOK_append env hp x h (HeapOK_get env hp g x h hx))
 
 theorem readSlot_ok (env : Env H V) (w : World V) (tg : Target) (p : Nat) (f : Bool)
     (hd : w.dynTD = true) (h : HeapOK env w.gens) : HeapOK env (readSlot env w tg p f).2.gens := by
@@ -426,7 +437,7 @@ end
 /-- same object graph, same saved stacks (the caches themselves may differ) -/
 def SameShape (w w' : World V) : Prop :=
   w'.defaults = w.defaults ∧ w'.insts = w.insts ∧
-  ∀ x, (w'.gens[x]?).map (·.saved) = (w.gens[x]?).map (·.saved)
+  ∀ x : Nat, (w'.gens[x]?).map (fun g : Gen V => g.saved) = (w.gens[x]?).map (fun g : Gen V => g.saved)
 
 theorem SameShape.refl (w : World V) : SameShape w w := ⟨rfl, rfl, fun _ => rfl⟩
 
@@ -440,7 +451,7 @@ theorem readSlot_shape (env : Env H V) (w : World V) (tg : Target) (p : Nat) (f 
   · exact SameShape.refl w
   · split
     · exact SameShape.refl w
-    · rename_i gi _ g hg
+    · rename_i gi pt h1 h2 _ g hg
       refine ⟨rfl, rfl, ?_⟩
       intro x
       simp only
@@ -491,7 +502,6 @@ theorem runOps_shape (env : Env H V) : ∀ (os : List Op) (w : World V),
 end
 
 theorem instGens_shape {w w' : World V} (h : SameShape w w') (i : Nat) : instGens w' i = instGens w i := by
-  unfold instGens resolve
-  rw [h.1, h.2.1]
+  simp only [instGens, resolve, h.1, h.2.1]
 
 end ParamVerif.TimeDyn
